@@ -44,7 +44,9 @@ pub fn tree(v: Value, depth: u32) -> String {
 type R = Result<Value, ExecutionErrorPayload>;
 fn n_log1(vm: &mut Vm<Host>, v: Value) -> R {
     let t = tree(v, TREE_DEPTH);
-    vm.get_aux_mut().log.push(out::list(vec![t]));
+    // value-stack height and call depth as the native sees them (its argument is still on the stack)
+    let (h, d) = cao_lang::verif_hooks::stack_heights(&vm.runtime_data);
+    vm.get_aux_mut().log.push(out::list(vec![format!("(TInt {})", out::z(h as i64)), format!("(TInt {})", out::z(d as i64)), t]));
     Ok(Value::Nil)
 }
 fn n_sub2(vm: &mut Vm<Host>, a: i64, b: i64) -> R {
@@ -210,7 +212,16 @@ pub fn observe(vm: &mut Vm<'static, Host>, prog: &CaoCompiledProgram, pr: &Print
             .collect()
     };
     let log = out::list(vm.get_aux().log.iter().cloned());
-    Obs { kind, term: format!("(mkObs {} {} {})", oterm, out::list(globals), log), timeout }
+    // value-stack height, call-stack depth, number of objects, length of the globals vector (verif-hooks)
+    let shape = if kind == Kind::Panic {
+        "None".to_string()
+    } else {
+        let (h, d) = cao_lang::verif_hooks::stack_heights(&vm.runtime_data);
+        let objs = cao_lang::verif_hooks::object_count(&vm.runtime_data);
+        let gl = cao_lang::verif_hooks::global_count(&vm.runtime_data);
+        format!("(Some [{}; {}; {}; {}])", out::n(h as u64), out::n(d as u64), out::n(objs as u64), out::n(gl as u64))
+    };
+    Obs { kind, term: format!("(mkObs {} {} {} {})", oterm, out::list(globals), log, shape), timeout }
 }
 
 fn run_fresh(prog: &CaoCompiledProgram, pr: &Printed, budget: u64) -> Obs {
